@@ -18,6 +18,11 @@ CLAIMED = {
    note="Explicit data flow only; integer division is not treated as rounding; the millisecond-scaled idiom is recognised syntactically on the rounded operand (product with a constant >= 1000).",
    technique="static analysis: backward slices over SSA (no-coarse-rounding rule) + dominance/control rule on returns + paired-update rule",
    ref="DESIGN.md §3 C05"),
+ "C06": dict(
+   text="Static analysis of structural necessary conditions in splitPeriod: the multiple-of-segment-duration test fails with an error, dominates the creation of every period and is control-dependent (modulo error exits) on nothing but the periods-per-hour presence test; the period-continuity descriptor has a single creation site that is control-dependent on the continuity flag, the period/adaptation-set loops and nothing else; the divisors of the period arithmetic are proven non-zero for every request (E3-A); the per-period startNumber depends on the configured start number. Tiling, ids, one-period-per-segment and byte equality are not decided.",
+   note="Control dependence on the SSA CFG with error-only exits pruned; natural loops from dominance; E3-A assumptions as for C08.",
+   technique="static analysis: dominance + control-dependence rules over SSA, interval rule on divisors, dependence slice on startNumber",
+   ref="DESIGN.md §3 C06"),
  "C07": dict(
    text="Static lock-discipline and aliasing analysis of the livesim2 server: every write to server-lifetime state (including bytes that library objects keep aliasing) by request-serving code, and every access that may run in parallel with it, must hold the owning mutex; no handler-reachable source of non-determinism; every early-exit range over a server map is a reviewed instance; sync.Pool objects are not used after Put. Necessary conditions of purity and race-freedom for all histories and interleavings; byte equality of responses is not decided.",
    note="Origin/alias analysis is field-based and type-directed (no points-to analysis available); library aliasing and mutators are the listed ones; VTA call graph; known findings: unsynchronised ingest-manager tables.",
